@@ -4,6 +4,7 @@ import (
 	"encoding/base64"
 	"encoding/json"
 	"fmt"
+	"strings"
 
 	"verif/internal/mon"
 )
@@ -21,8 +22,10 @@ const hostileRule = "seeds: small valid streams of every codec and geometry clas
 	"generators: (trunc) every truncation length; (sweep) every byte of the header region (+32) x a value set (all 256 in the thorough tier); (field) every 16/32-bit position of the header region x {0,1,2,3,7FFF,8000,FFFF,..,len+-1}; (havoc) k-byte changes, block delete/duplicate, splices with other seeds, random bodies behind a valid prefix; (session) behaviour-feedback loop keeping mutants whose (error text | success geometry | panic) signature over all entry points is new; (rlefi) RLE FrameInfo sweep over {0,1,..,65535}. " +
 	"every input is fed to every decoding entry point of its family: the 7 package-level Decode functions of the JPEG/JPEG-LS packages + codecs .50-.81, jpeg2000.Decoder with and without the HT block-decoder factory + codecs .90-.203, the RLE codec. evaluations/distinct = distinct (input, frame description) pairs per batch; decode_calls counts the calls."
 
-func (c08) ID() string   { return "C08" }
-func (c08) Rule() string { return "oracle: recover() around every call + child exit status; a Go panic or a runtime fatal error other than out-of-memory is a violation (signature = message without digits @ first library function on the stack). " + hostileRule }
+func (c08) ID() string { return "C08" }
+func (c08) Rule() string {
+	return "oracle: recover() around every call + child exit status; a Go panic or a runtime fatal error other than out-of-memory is a violation (signature = message without digits @ first library function on the stack). " + hostileRule
+}
 func (c08) Assumptions() []string {
 	return []string{"behaviour-signature feedback is coarser than branch coverage: deep T1/T2/HT states are reached mainly from the valid seeds and their body mutations"}
 }
@@ -83,4 +86,9 @@ func (c09) ClassifyDeath(desc any, kind, msg, frame string, cur []byte) mon.Resu
 	}
 	// other fatal errors are C08's business
 	return mon.Result{V: mon.Inconclusive, Msg: fmt.Sprintf("child died (%s) in %s: C08's business", kind, entry), Replay: rp}
+}
+
+// NeedsConfirm: CPU-time and hang verdicts are taken under full machine load.
+func (c09) NeedsConfirm(r mon.Result) bool {
+	return strings.HasPrefix(r.Class, "time:") || strings.HasPrefix(r.Class, "hang:")
 }
